@@ -18,7 +18,10 @@ RULE = (
     "alternatives, priorities, ASAP/ALAP, resolutions 5..60 min) are scheduled by the real code; for every leaf "
     "resource and slot: entries >= 0, sum(entries) <= slot length, slotSecondsUsed within [0, slot length] and "
     ">= sum(entries) is not required; a layout respecting the reported start/end of tasks that begin or finish "
-    "inside the slot must exist (preemptive feasibility test). Non-trivial: some resource-slot holds real entries "
+    "inside the slot must exist (feasibility test; a task that starts in the slot and goes on works from its start "
+    "without a break, a task that arrives from another slot and ends here works up to its end). Further campaigns: "
+    "limits of every kind with sub-slot efforts, and the region 'a dependent task probes a partly used slot but is "
+    "kept out by a limit'. Non-trivial: some resource-slot holds real entries "
     "of >= 2 tasks. Domain A: a Hypothesis state machine drives bookResource / finish-and-release episodes on one "
     "slot of the real ResourceScenario/TaskScenario objects; non-trivial: >= 3 episodes on a slot incl. a partial "
     "release followed by another booking. Distinct = distinct rendered text / operation sequence."
